@@ -245,6 +245,27 @@ def run_format(args):
             check("load(list)", {"files": L, "stride": s, "atom_indices": ai},
                   lambda L=L, s=s, ai=ai: md.load(paths[:L], stride=s, atom_indices=ai, **kw), exp_list,
                   _flags(**{"stride>1": s > 1, "ai": ai is not None, "many": L > 1}))
+    # ---- sequences of two loads that share ONE topology (object or file): state left behind by the first load
+    # (a patched or cached Topology) must not leak into the second
+    if fmt not in HAS_TOP and natoms >= 7:
+        import pickle
+        top_path = os.path.join(scratch, "c02_top_%s_%d.pdb" % (fmt.replace(".", "_"), n))
+        full[0].save(top_path)
+        full_path = md.load(p, top=top_path)       # the full load through the same topology FILE (pdb adds bonds)
+        for topkind, (A, B) in itertools.product(("object", "path"), (([1, 3], [0, 2]), ([0, 2, 3, 6], [1, 2, 4, 5]))):
+            def seq(topkind=topkind, A=A, B=B):
+                T = pickle.loads(pickle.dumps(top)) if topkind == "object" else top_path
+                md.load(paths[:2], top=T, atom_indices=A)            # step 1: list of files + atom subset
+                r2 = md.load(p, top=T, atom_indices=B)                # step 2: other subset of the same size
+                if topkind == "object":
+                    names = [a.name for a in T.subset(B).atoms]
+                    want = [top.atom(i).name for i in B]
+                    if names != want:
+                        raise AssertionError("after load(list, atom_indices=%s) the caller's Topology.subset(%s) returns atoms %s" % (A, B, names))
+                return r2
+            check("load(list)->load", {"top": topkind, "first_atom_indices": A, "atom_indices": B}, seq,
+                  lambda B=B, topkind=topkind: _slice(full if topkind == "object" else full_path, 0, 1, B),
+                  _flags(**{"top=" + topkind: True}))
     return viol, cases, nontrivial, outcomes, sample
 
 
@@ -270,7 +291,8 @@ def run(ctx):
         "samples": samples[:5], "exhaustive": True,
         "axes": {"formats": FORMATS, "n_frames": ns, "atom_indices": AI_MENU, "atom_indices_for_load": "every non-empty strictly increasing subset of 8 atoms",
                  "stride": "1..min(3,N+1)" if ctx.quick else "1..N+1", "chunk": "0..min(4,N+1)" if ctx.quick else "0..N+1",
-                 "skip": "0..min(2,N)" if ctx.quick else "0..N", "file_lists": "1..3"},
+                 "skip": "0..min(2,N)" if ctx.quick else "0..N", "file_lists": "1..3",
+                 "load_sequences": "load(list, ai=A) then load(ai=B) through one Topology object / one topology file"},
         "distinct_outcomes": len(outcomes),
     }
 
